@@ -101,3 +101,11 @@ Theorem C10_source_warm_start_in_init_list : forall sp cons names igs iv,
   exists i, nth_error (in_init_positions_l s') i = Some p /\ Z.of_nat i < in_n_inits s'.
 Proof. exact source_warm_start_in_init_list. Qed.
 Print Assumptions C10_source_warm_start_in_init_list.
+
+Require Import PopGen PopTie.
+(* split() GENERATED from /repo's pop_opt/base_population_optimizer.py (generated/PopGen.v; proofs/PopTie.v): the population's round-robin
+   schedule evaluates positions_l[t] at init step t -- member t mod P's (t / P)-th own position *)
+Theorem C10_source_split_round_robin : forall (l : list pos) (P t : nat), (0 < P)%nat -> (t < length l)%nat ->
+  exists shares, g_split l (Z.of_nat P) = Ok shares /\ pop_init_pos shares P t = nth_error l t.
+Proof. exact source_split_round_robin. Qed.
+Print Assumptions C10_source_split_round_robin.
